@@ -57,6 +57,10 @@ def _as_kind(dtype):
 
 
 def _fill(n, v, kind, name=None):
+    if kind == "i" and not isinstance(v, (int, bool)) and not (is_z3(v) and z3.is_int(v)):
+        # a real value stored into an integer array is truncated towards zero (numpy casting, A4)
+        rv = R(val_of(v)) if not isinstance(v, Fraction) else z3.RealVal(str(v))
+        v = z3.If(rv >= 0, z3.ToInt(rv), -z3.ToInt(-rv))
     a = Arr(n, lambda j, _v=v: _v, kind, name)
     a.const_fill = v
     return a
